@@ -131,6 +131,81 @@ class LockName(Harness):
         return AND(ok, IMPLIES(symex.path_eq(la, lb), same))
 
 
+class CreatorLock(Harness):
+    """the lock file a tile creation takes (single tile, meta tile, bulk meta tile) for a request with attacker-chosen
+    dimension values lies in the lock directory: whatever reaches TileLocker.lock -> FileLock from TileCreator"""
+    modules = ['mapproxy.grid', 'mapproxy.cache.base', 'mapproxy.cache.tile']
+    functions = ['TileCreator._create_single_tile', 'TileCreator._create_meta_tile', 'TileCreator._create_bulk_meta_tile',
+                 'TileManager.lock', 'TileLocker.lock', 'TileLocker.lock_filename']
+
+    @classmethod
+    def build(cls, L, cfg):
+        from props import common as _c
+        return dict(b=L.mods['mapproxy.cache.base'], t=L.mods['mapproxy.cache.tile'], G=_c.make_grid(L.mods['mapproxy.grid'], 'merc_ll'))
+
+    @classmethod
+    def inputs(cls, ctx, cfg):
+        return dict(value=FreeStr.var('dim_value', MAXLEN))
+
+    @classmethod
+    def native_inputs(cls, cex):
+        return dict(value=cex['value'])
+
+    @classmethod
+    def native_variants(cls, ins):
+        # a separator in the value is what the symbolic run exhibits; build values that really climb out
+        for v in ('/../../../../x', '../../y', '/abs/z'):
+            yield dict(value=v)
+
+    @classmethod
+    def prop(cls, ctx, cfg, value):
+        import contextlib
+        from props import tmstub
+        b, t, G = ctx['b'], ctx['t'], ctx['G']
+        names = []
+
+        class FL(object):
+            def __init__(self, name, **kw):
+                names.append(name)
+
+            def __enter__(self):
+                return self
+
+            def __exit__(self, *a):
+                return False
+        b.__dict__['FileLock'] = FL
+        b.__dict__['cleanup_lockdir'] = lambda *a, **k: None
+        t.__dict__['TileSplitter'] = tmstub.FakeSplitter
+        ev = []
+
+        class EmptyCache(object):
+            supports_timestamp = False
+            coverage = None
+            is_cached = lambda self, tile, dimensions=None: False          # noqa
+            load_tile = lambda self, tile, with_metadata=False, dimensions=None: False   # noqa
+            store_tile = lambda self, tile, dimensions=None: True          # noqa
+            store_tiles = lambda self, tiles, dimensions=None: True        # noqa
+        src = tmstub.RecSource(ev)
+        mode = cfg['mode']
+        src.supports_meta_tiles = mode == 'meta'
+        locker = b.TileLocker(LOCKS, 60, 'abcdef0123')
+        mgr = t.TileManager(G, EmptyCache(), [src], 'png', locker, meta_size=None if mode == 'single' else [2, 2], meta_buffer=0,
+                            bulk_meta_tiles=(mode == 'bulk'))
+        dims = {cfg['key']: value}
+        cr = mgr.creator(dimensions=dims)
+        coord = (1, 1, 2)
+        if mode == 'single':
+            cr._create_single_tile(t.Tile(coord))
+        elif mode == 'bulk':
+            cr._create_bulk_meta_tile(mgr.meta_grid.meta_tile(coord))
+        else:
+            cr._create_meta_tile(mgr.meta_grid.meta_tile(coord))
+        ok = len(names) >= 1
+        for n in names:
+            ok = AND(ok, stays_below(n, LOCKS))
+        return ok
+
+
 class CheckedDimensions(Harness):
     """TileLayer.checked_dimensions: whatever the request says, only configured values (or the
     default) reach the tile manager from the tile services."""
@@ -339,6 +414,10 @@ def obligations(tier, seed):
                 continue
             specs.append(spec(MOD, 'CachePath', 'cache-path/%s/%s' % (layout, keys), cfg=dict(layout=layout, keys=keys), cost=30))
     specs.append(spec(MOD, 'LockName', 'lock-name', cfg={}))
+    for mode in ('single', 'meta', 'bulk'):
+        for key in (('time', 'dim_/../x') if tier == 'thorough' else ('time',)):
+            specs.append(spec(MOD, 'CreatorLock', 'creator-lock-file/%s/%s' % (mode, key), cfg=dict(mode=mode, key=key), cost=3))
+    specs.append(spec(MOD, 'CreatorLock', 'twin/CreatorLock', kind='witness', cfg=dict(mode='single', key='time')))
     specs.append(spec(MOD, 'CheckedDimensions', 'checked-dimensions', cfg={}))
     for fail in (None, 'write', 'rename', 'open'):
         specs.append(spec(MOD, 'AtomicWrite', 'atomic-write-stays-in-directory/%s' % (fail or 'ok'), cfg=dict(fail=fail)))
@@ -365,7 +444,7 @@ META = dict(
                 'directory of its target (free file name, os/tempfile/random replaced by recording stubs, error paths included); the symbolic '
                 'link of a single-colour tile points, relative to that tile\'s own directory, at the shared colour file inside the cache '
                 'directory -- for two successive stores at different dimension depths.',
-    functions=sorted(set(CachePath.functions + LockName.functions + CheckedDimensions.functions + AtomicWrite.functions + LinkTarget.functions)),
+    functions=sorted(set(CachePath.functions + LockName.functions + CreatorLock.functions + CheckedDimensions.functions + AtomicWrite.functions + LinkTarget.functions)),
     bounds='dimension values: arbitrary strings of length <= 8 (1-2 values); dimension keys from an adversarial family of 5 '
            '(incl. keys containing "/" and ".."); coordinates >= 0 (in-grid is C16\'s obligation)',
     outside='which request parameters are recognised as dimensions (regex, C code), multiapp project names, S3/Azure key construction, '
